@@ -10,12 +10,14 @@
    Parameters of the mirror that stand for code mirrored elsewhere / opaque:
    - [pos]     the end of the %grmtools section as returned by
                GrmtoolsSectionParser::parse (mirrored under theories/C12);
-   - [awc],[pe] the flags allow_wholeline_comments and posix_escapes after
-               defaulting (LexParser::new_with_lex_flags);
+   - [awc],[pe],[iw] the flags allow_wholeline_comments, posix_escapes and
+               ignore_whitespace (= Some(true)) after defaulting
+               (LexParser::new_with_lex_flags);
    - [re_bad]  the offsets of rule lines whose regular expression the regex
                crate refuses to compile (Rule::new is opaque here);
-   - [fx]      which of the four proposed repairs are applied (record [fixes];
-               all false = the code as it is today). *)
+   - [fx]      which of the five proposed repairs are applied (record [fixes];
+               all false = the code as it was first read, [pinned] = the code as
+               it is now, [repaired] = all of them). *)
 From Coq Require Import List Arith NArith Bool Lia.
 From GV Require Import Common.Outcome.
 Import ListNotations.
@@ -61,6 +63,22 @@ Definition is_xdigit (c : N) : bool := is_digit c || in_range c 65 70 || in_rang
 (* regex_syntax::is_meta_character:  \ . + * ? ( ) | [ ] { } ^ $ # & - ~ *)
 Definition is_meta_character (c : N) : bool :=
   mem c [92; 46; 43; 42; 63; 40; 41; 124; 91; 93; 123; 125; 94; 36; 35; 38; 45; 126]%N.
+
+(* char::is_whitespace (\p{White_Space}): what the regex crate skips outside and inside
+   character classes when ignore_whitespace (x mode) is on (regex-syntax ast/parse.rs bump_space) *)
+Definition is_rx_ws (c : N) : bool :=
+  mem c [9; 10; 11; 12; 13; 32; 133; 160; 5760; 8232; 8233; 8239; 8287; 12288]%N || in_range c 8192 8202.
+
+(* format!("{:X}", c as u32): upper-case hexadecimal, no leading zeros (a u32 has at most 8 digits) *)
+Definition hex_digit (d : N) : N := if (d <? 10)%N then (48 + d)%N else (55 + d)%N.
+Fixpoint hex_go (fuel : nat) (n : N) (acc : text) : text :=
+  match fuel with
+  | 0 => acc
+  | S fuel' =>
+      let acc' := hex_digit (n mod 16) :: acc in
+      if (n / 16 =? 0)%N then acc' else hex_go fuel' (n / 16) acc'
+  end.
+Definition hex_upper (n : N) : text := hex_go 8 n [].
 
 (* RE_LEX_ESC_LITERAL = ^(([xuU][[:xdigit:]])|[[:digit:]]|[afnrtv\\]|[pP]|[dDsSwW]|[Az])
    matched against the text that starts at the escaped character *)
@@ -246,9 +264,16 @@ Definition add_duplicate_occurrence (errs : list err) (k : err_kind) (orig dup :
 
 (* ---- the escape rewriting (parser.rs:543 unescape) -------------------------- *)
 
+(* [kw] ("keep white space"): proposed repair, in force when the flag ignore_whitespace is
+   Some(true) — the closure `ws_special` of the repaired code.  The escape before a character the
+   regex engine skips in that mode is kept; kept as it is for ASCII ([ws_kept]: the regex crate
+   accepts `\c` for ASCII non-alphanumerics only), respelled `\x{..}` otherwise. *)
+Definition ws_special (kw : bool) (c : N) : bool := kw && is_rx_ws c.
+Definition ws_kept (kw : bool) (c : N) : bool := (c <? 128)%N && ws_special kw c.
+
 (* first loop: look for an escape sequence which needs unescaping.  Returns the
    cursor (i, s, j, c2) and the state of the char_indices iterator after it. *)
-Fixpoint unescape_first (it : text) (off : nat) : option (nat * text * nat * N * text * nat) :=
+Fixpoint unescape_first (kw : bool) (it : text) (off : nat) : option (nat * text * nat * N * text * nat) :=
   match it with
   | [] => None
   | c :: it1 =>
@@ -256,22 +281,25 @@ Fixpoint unescape_first (it : text) (off : nat) : option (nat * text * nat * N *
         match it1 with
         | [] => None
         | c2 :: it2 =>
-            if negb (is_meta_character c2 || lex_esc_literal (c2 :: it2))
+            if negb (is_meta_character c2 || lex_esc_literal (c2 :: it2) || ws_kept kw c2)
             then Some (off, c2 :: it2, off + 1, c2, it2, off + 1 + len_utf8 c2)
-            else unescape_first it2 (off + 1 + len_utf8 c2)
+            else unescape_first kw it2 (off + 1 + len_utf8 c2)
         end
-      else unescape_first it1 (off + len_utf8 c)
+      else unescape_first kw it1 (off + len_utf8 c)
   end.
 
 (* body of 'outer for one cursor: returns the new (unescaped, last_pos) *)
-Definition unescape_step (re unescaped : text) (last_pos i : nat) (s : text) (j : nat) (c : N) (pe : bool)
+Definition unescape_step (kw : bool) (re unescaped : text) (last_pos i : nat) (s : text) (j : nat) (c : N) (pe : bool)
   : outcome (text * nat) :=
   if (c =? c_b)%N then
     do a <- slice re last_pos i;
     Done (unescaped ++ a ++ (if pe then [92; 120; 48; 56]%N else [92; 98]%N), j + 1)
-  else if is_meta_character c || lex_esc_literal s then
+  else if is_meta_character c || lex_esc_literal s || ws_kept kw c then
     do a <- slice re last_pos (j + len_utf8 c);
     Done (unescaped ++ a, j + len_utf8 c)
+  else if ws_special kw c then                    (* non-ASCII white space: \x{HEX} *)
+    do a <- slice re last_pos i;
+    Done (unescaped ++ a ++ [92; 120; 123]%N ++ hex_upper c ++ [125]%N, j + len_utf8 c)
   else
     do a <- slice re last_pos i;
     let last_pos' := j + len_utf8 c in
@@ -281,7 +309,7 @@ Definition unescape_step (re unescaped : text) (last_pos i : nat) (s : text) (j 
 (* the inner loop (look for the next backslash) followed by the next round of 'outer *)
 (* [fixd = true]: proposed repair — a lone final backslash no longer loses the text since the
    last rewritten escape (the trailing copy is also done when the cursor runs out) *)
-Fixpoint unescape_rest (fixd : bool) (re it : text) (off : nat) (unescaped : text) (last_pos : nat) (pe : bool)
+Fixpoint unescape_rest (fixd kw : bool) (re it : text) (off : nat) (unescaped : text) (last_pos : nat) (pe : bool)
   : outcome text :=
   match it with
   | [] => do tl <- slice_from re last_pos; Done (unescaped ++ tl)
@@ -292,22 +320,22 @@ Fixpoint unescape_rest (fixd : bool) (re it : text) (off : nat) (unescaped : tex
             if fixd then do tl <- slice_from re last_pos; Done (unescaped ++ tl)
             else Done unescaped
         | c2 :: it2 =>
-            do r <- unescape_step re unescaped last_pos off (c2 :: it2) (off + 1) c2 pe;
-            unescape_rest fixd re it2 (off + 1 + len_utf8 c2) (fst r) (snd r) pe
+            do r <- unescape_step kw re unescaped last_pos off (c2 :: it2) (off + 1) c2 pe;
+            unescape_rest fixd kw re it2 (off + 1 + len_utf8 c2) (fst r) (snd r) pe
         end
-      else unescape_rest fixd re it1 (off + len_utf8 c) unescaped last_pos pe
+      else unescape_rest fixd kw re it1 (off + len_utf8 c) unescaped last_pos pe
   end.
 
-Definition unescape_gen (fixd : bool) (re : text) (pe : bool) : outcome text :=
-  match unescape_first re 0 with
+Definition unescape_gen (fixd kw : bool) (re : text) (pe : bool) : outcome text :=
+  match unescape_first kw re 0 with
   | None => Done re
   | Some (i, s, j, c2, it2, off2) =>
-      do r <- unescape_step re [] 0 i s j c2 pe;
-      unescape_rest fixd re it2 off2 (fst r) (snd r) pe
+      do r <- unescape_step kw re [] 0 i s j c2 pe;
+      unescape_rest fixd kw re it2 off2 (fst r) (snd r) pe
   end.
 
-(* today's code *)
-Definition unescape := unescape_gen false.
+(* the code as it was first read *)
+Definition unescape := unescape_gen false false.
 
 (* parser.rs:688 trim_end_unescaped *)
 Definition count_trailing_bsl (s : text) : nat := length (take_while (N.eqb c_bsl) (rev s)).
@@ -323,22 +351,29 @@ Definition trim_end_unescaped (s : text) : outcome text :=
     end
   else Done trimmed.
 
-(* ---- the proposed repairs (all false = the code as it is today) ------------- *)
+(* ---- the proposed repairs (all false = the code as it was first read) ------- *)
 Record fixes := {
   fix_header : bool;         (* parse the whole text starting at the header end instead of slicing it off *)
   fix_target_span : bool;    (* name_span computed from where the name is, also behind a <target> *)
   fix_prefix_unescape : bool;(* unescape also the regex of a rule with a <A,B> prefix *)
-  fix_dangling : bool        (* unescape: trailing copy also when the scan ends on a lone backslash *)
+  fix_dangling : bool;       (* unescape: trailing copy also when the scan ends on a lone backslash *)
+  fix_iw : bool              (* unescape: under ignore_whitespace the escape before white space is kept *)
 }.
 Definition today : fixes :=
-  {| fix_header := false; fix_target_span := false; fix_prefix_unescape := false; fix_dangling := false |}.
+  {| fix_header := false; fix_target_span := false; fix_prefix_unescape := false; fix_dangling := false;
+     fix_iw := false |}.
+(* the code as it is now: the first four repairs are in, the fifth is proposed *)
+Definition pinned : fixes :=
+  {| fix_header := true; fix_target_span := true; fix_prefix_unescape := true; fix_dangling := true;
+     fix_iw := false |}.
 Definition repaired : fixes :=
-  {| fix_header := true; fix_target_span := true; fix_prefix_unescape := true; fix_dangling := true |}.
+  {| fix_header := true; fix_target_span := true; fix_prefix_unescape := true; fix_dangling := true;
+     fix_iw := true |}.
 
 (* ---- the parser -------------------------------------------------------------- *)
 Section Parser.
   Variable src : text.              (* self.src *)
-  Variable awc pe : bool.           (* allow_wholeline_comments, posix_escapes *)
+  Variable awc pe iw : bool.        (* allow_wholeline_comments, posix_escapes, ignore_whitespace = Some(true) *)
   Variable re_bad : list nat.       (* rule lines whose regex does not compile *)
   Variable fx : fixes.
 
@@ -493,7 +528,7 @@ Section Parser.
   (* parse_start_states *)
   Definition parse_start_states (st : pstate) (off : nat) (re_str : text) : res (list nat * text) :=
     if negb (starts_with [c_lt] re_str) then
-      dor u <- lift (unescape_gen (fix_dangling fx) re_str pe); ROk ([], u)
+      dor u <- lift (unescape_gen (fix_dangling fx) (fix_iw fx && iw) re_str pe); ROk ([], u)
     else
       match find (N.eqb c_gt) re_str with
       | None => RErr (mk_error InvalidStartState off)
@@ -503,7 +538,7 @@ Section Parser.
           dor ids <- states_by_name st off names;
           dor rest <- lift (slice_from re_str (j + 1));
           if fix_prefix_unescape fx
-          then dor u <- lift (unescape_gen (fix_dangling fx) rest pe); ROk (ids, u)
+          then dor u <- lift (unescape_gen (fix_dangling fx) (fix_iw fx && iw) rest pe); ROk (ids, u)
           else ROk (ids, rest)
       end.
 
@@ -649,9 +684,9 @@ End Parser.
    text and starts at [pos]. *)
 Definition fuel_for (src : text) : nat := byte_len src + 2.
 
-Definition lex_from_str (fx : fixes) (src : text) (pos : nat) (awc pe : bool) (re_bad : list nat)
+Definition lex_from_str (fx : fixes) (src : text) (pos : nat) (awc pe iw : bool) (re_bad : list nat)
   : outcome parsed :=
   do s <- slice_from src pos;                                (* s[pos..] *)
   if fix_header fx
-  then parse src awc pe re_bad fx (fuel_for src) pos
-  else parse s awc pe re_bad fx (fuel_for s) 0.
+  then parse src awc pe iw re_bad fx (fuel_for src) pos
+  else parse s awc pe iw re_bad fx (fuel_for s) 0.
